@@ -15,13 +15,15 @@ func init() {
 	register("C13", &Def{
 		Title:     "Segments tile every block range exactly",
 		Run:       runC13,
-		Technique: "static analysis (narrow): sibling agreement of the index formulas by parameter substitution, operand classification of every division by the interval (start class vs exclusive-end-minus-one), clip/guard normal forms, alignment-idiom rule on remainders",
+		Technique: "static analysis (narrow): sibling agreement of the index formulas by parameter substitution, operand classification of every division by the interval (start class vs exclusive-end-minus-one), clip/guard normal forms, alignment-idiom rule on remainders, loop-carried-value rules on Range.Split (contiguity, clip, exit) and edge-cut rules on Ranges.Merged (merge only over a successful adjacency test)",
 		Explanation: "The tiling theorem itself is integer arithmetic over runtime values and is NOT decided. Decided are the index/bound disciplines the formulas rely on, each a necessary condition: " +
 			"(R1) LastIndex() is IndexForEndBlock applied to the exclusive end, FirstIndex() is IndexForStartBlock applied to the initial block (same expression after substituting the operand), and both range builders bound a segment by floor+interval; " +
 			"(R2) every division by the interval takes a start-class operand as is and an exclusive-end-class operand minus one; " +
 			"(R3) both range builders clip with min(_, exclusiveEndBlock), Range(idx) yields nil below FirstIndex and followingRange yields nil above LastIndex, the first range starts at the initial block and a following range at idx*interval; " +
-			"(R4) remainders by the interval/chunk size are only compared with zero or subtracted from their own dividend.",
-		NotCovered:  "Contiguity, disjointness and union of the segments over all (size, initial, end) triples; Ranges.Merged/MergedBuckets; Range.Split beyond the alignment idiom. These are arithmetic theorems out of reach of this family.",
+			"(R4) remainders by the interval/chunk size are only compared with zero or subtracted from their own dividend; " +
+			"(R5) Range.Split: the first chunk starts at the range's start, every following chunk starts exactly where the previous ended, a chunk end is the previous end plus the chunk size clipped to the range's end, chunks are produced until that end is reached and all of them are returned, a range fitting one chunk is returned as is; " +
+			"(R6) Ranges.Merged: a merged range runs from the start of the first to the end of the last range of a chain whose every link was compared end == next start, nothing is merged or extended without that comparison having succeeded, and every other input range is kept unchanged. R1 also pins Count() = LastIndex − FirstIndex + 1 and the argument roles of NewSegmenter / With*.",
+		NotCovered:  "Contiguity, disjointness and union of the segments over all (size, initial, end) triples; Ranges.MergedBuckets; that Split's first chunk end (an alignment formula) lies inside the range; index bookkeeping of Merged (that no input range is skipped). These are arithmetic theorems out of reach of this family.",
 		Assumptions: []string{"interval > 0 (validated at configuration time)"},
 	})
 }
@@ -275,6 +277,10 @@ func runC13(p *core.Prog, r *core.Report) {
 		}
 		r.Check(okAbove, "C13.R3", "followingRange/above-last", "indexes above LastIndex() yield no segment (guard idx > LastIndex() → nil, or equivalently lower bound >= exclusive end → nil)", "no guard returning nil for every index whose segment would start at or after the exclusive end", p.Pos(fr.Pos()))
 	})
+
+	r.Guard("C13.R1", "derived", "Count and derived segmenters", func() { checkSegmenterDerived(p, r) })
+	r.Guard("C13.R5", "Range.Split", "chunks are contiguous and cover the range", func() { checkRangeSplit(p, r) })
+	r.Guard("C13.R6", "Ranges.Merged", "merging only adjacent ranges", func() { checkRangesMerged(p, r) })
 
 	// ---- R4 alignment idiom in the block package
 	r.Guard("C13.R4", "block/remainders", "alignment idiom", func() {
